@@ -85,7 +85,7 @@ def string_table_eval(ctx, fn_name, oracle, what, cases=True, non_words=("frobni
     n = 0
     for variant, spellings in oracle.items():
         for sp in spellings:
-            forms = [sp] + ([sp.upper(), sp.capitalize()] if cases and sp.isalpha() else [])
+            forms = [sp] + ([sp.upper(), sp.capitalize()] if cases and sp.replace("_", "").isalnum() and any(ch.isalpha() for ch in sp) else [])
             for text in dict.fromkeys(forms):
                 try:
                     got = interp.Interp(prog=ctx.prog).run(hir, {ps[0]["id"]: text})
